@@ -472,6 +472,56 @@ func runC04(c *Ctx) {
 			okP = false
 		}
 	}
+	// the output is a hash of the point's bytes: those bytes must be the one canonical serialisation
+	{
+		c.sites++
+		okCanon, whyCanon := false, "no hash of the proof's point bytes found in the returned index"
+		for _, rp := range returnPaths(pth, 1) {
+			if rp.Kind != RetNil {
+				continue
+			}
+			res := rp.Ret.Results[0]
+			var hashed ssa.Value
+			backward(res, func(v ssa.Value) bool {
+				if cc, ok := v.(*ssa.Call); ok {
+					if o := calleeObj(cc); o != nil && strings.HasPrefix(o.Name(), "Sum") && hashed == nil {
+						hashed = cc.Call.Args[0]
+					}
+					return false
+				}
+				return hashed == nil
+			})
+			if hashed == nil {
+				continue
+			}
+			hv := stripConvNoBind(hashed)
+			// (b) re-marshalled from a parsed point
+			if mc, isCall := hv.(*ssa.Call); isCall && calleeObj(mc) != nil && calleeObj(mc).Name() == "Marshal" {
+				okCanon = true
+				continue
+			}
+			// (a) the same bytes were parsed by Unmarshal and the result tested non-nil on this way of returning
+			okCanon, whyCanon = false, "the bytes hashed into the output are not validated by elliptic.Unmarshal (which checks the format byte, the length and the curve equation)"
+			for _, ci := range callInstrs(pth) {
+				o := calleeObj(ci)
+				if o == nil || o.Name() != "Unmarshal" {
+					continue
+				}
+				args := callArgs(ci)
+				if len(args) == 0 || !(stripConvNoBind(args[len(args)-1]) == hv || samePath(args[len(args)-1], hv)) {
+					continue
+				}
+				for _, a := range rp.Atoms() {
+					if a.Kind == "isnil" && !a.Truth {
+						if ex, isEx := stripConv(a.X).(*ssa.Extract); isEx && ex.Tuple == ci.Value() {
+							okCanon = true
+						}
+					}
+				}
+			}
+		}
+		c.Check(fname(pth)+"#output-over-canonical-point-bytes", pth.Pos(), okCanon, ifelse(okCanon, "the hashed bytes were parsed by Unmarshal (non-nil) or produced by Marshal", whyCanon+": the same point in another serialisation (any other format byte) verifies with a different output, so one key has many outputs per message and the seat count is no longer the quantile of a unique VRF value"))
+	}
 	// what the challenge hash covers
 	{
 		h1, pkIn, vrfIn, where := vrfTranscript(w, pth)
